@@ -10,7 +10,7 @@ from fractions import Fraction
 
 from supcommon import *  # noqa
 
-MODEL_FILES = ["Model/LearnFull", "Model/LearnFullFloat", "Model/RunLearnFull"]
+MODEL_FILES = ["Model/LearnFull", "Model/LearnFullFloat", "Model/RunLearnFull", "Proofs/LearnFull", "Proofs/LearnFullOpf", "Proofs/LearnFullExample"]
 
 LEARN_METRICS = ["euclidean", "squared_euclidean", "manhattan", "log_squared_euclidean", "chebyshev", "canberra",
                  "log_euclidean", "bray_curtis"]
